@@ -323,6 +323,28 @@ func c12ValidateDoc(w *World, doc *graphqlDoc) string {
 
 var c12Ref = map[string]string{}
 
+// c12Prelude computes every reference response once, at the first run of the
+// worker process, in an order that differs from process to process: the driver
+// compares the references across processes, so anything process-wide that one
+// request leaves behind for another shows as processes disagreeing.
+var c12PreludeDone bool
+
+func c12Prelude() {
+	if c12PreludeDone {
+		return
+	}
+	c12PreludeDone = true
+	n := len(c12Reqs)
+	for k := 0; k < n; k++ {
+		i := (WorkerOrdinal*7 + k*(1+2*(WorkerOrdinal%3))) % n
+		c12Reference(i, false)
+	}
+	for i := 0; i < n; i++ {
+		c12Reference(i, false) // (strides that are not coprime with n skip some)
+		c12Reference(i, true)
+	}
+}
+
 func c12Reference(i int, validate bool) string {
 	key := fmt.Sprintf("%d/%v", i, validate)
 	if r, ok := c12Ref[key]; ok {
@@ -371,6 +393,7 @@ func (c12) Run(t TestingT, scn json.RawMessage, tape *Tape) *Outcome {
 	o := &Outcome{}
 	rq := c12Reqs[sc.Req]
 	defer verifmo.Set(verifmo.Sorted, 0)
+	c12Prelude()
 	validate := sc.Variant == "validate"
 	var ref string
 	if sc.Gen != nil {
